@@ -86,3 +86,17 @@ register("C01", "simlab.profiles.c01", "exploration",
                                            "copy independence, RNG-stream and hash-seed independence of construction"],
          seams=_CHAIN_SEAMS + ["SimRNG monitor (construction must not consume the global stream)", "PYTHONHASHSEED classes (tensors must be bit-identical across classes)"],
          design_ref="4/C01")
+
+_EVO_RULE = ("each run = one seeded session (6-16 steps) on a generated model: states, Hamiltonian operators (with offsets), bond expansion, gauge moves and "
+             "evolve calls under generated EvolveConfig (all schemes/tableaux/solvers/adaptive flags, time-dependent H callbacks, carried configs), each judged "
+             "per call against the dense propagator applied to the state before the call.  non-trivial = evolve call producing bond dimension > 1; "
+             "distinct = distinct (scheme, sub-scheme, adaptive, real/imag, object kind, sufficient-bond flag, step-size decade, td flag, pairwise oracle, bond dims)")
+_EVO_ASSUME = COMMON_ASSUMPTIONS + [
+    "scipy.linalg.expm / solve_ivp(DOP853, rtol 1e-12) are the exact references",
+    "accuracy bounds are asserted only when the bond limit (and, for one-site TDVP schemes, the input bonds) reach the exact ranks and x=||H|||dt| is in [0.02,0.5]; bounds and their measured/allowed maxima are listed in the evidence",
+]
+_EVO_SEAMS = _CHAIN_SEAMS + ["SimClock (time-dependent Hamiltonian callback records sample times)", "config history (guess_dt / auto-switched method carried by objects and copies)"]
+register("C09", "simlab.profiles.c09", "exploration", budgets={"quick": dict(runs=320, timeout=300), "thorough": dict(runs=12000, timeout=600)},
+         rule=_EVO_RULE, assumptions=_EVO_ASSUME, seams=_EVO_SEAMS, design_ref="4/C09")
+register("C10", "simlab.profiles.c10", "exploration", budgets={"quick": dict(runs=320, timeout=300), "thorough": dict(runs=12000, timeout=600)},
+         rule=_EVO_RULE, assumptions=_EVO_ASSUME, seams=_EVO_SEAMS, design_ref="4/C10")
